@@ -591,6 +591,17 @@ def run_locate(case, ctx, rng):
         key = key + "@unit-scaled"
         ctx.default_key = key
         ctx.event(f"length-unit:{unit:g}")
+    # the origin is the user's too: the same mesh far from it (coordinates of size 1e5 for a part of size 1), where the positions of
+    # points on edges and nodes carry a round-off of 1e-11
+    offset = None
+    if mc in ("gmsh", "organised", "affine") and unit == 1.0 and case["index"] % 3 == 1:
+        offset = np.zeros(3)
+        offset[:dim] = rng.choice([-1.0, 1.0], dim) * rng.uniform(0.5, 1.5, dim) * 1e5
+        with quiet():
+            mesh = gm.rebuild(mesh, coord=mesh.coord + offset)
+        key = key + "@far-from-origin"
+        ctx.default_key = key
+        ctx.event("far-from-origin")
     order = gm.ORDER[et]
     X = mesh.coord
     tensor = shape in ("QUAD", "HEXA")
@@ -603,6 +614,8 @@ def run_locate(case, ctx, rng):
         deg = order
     f0 = _poly_field(rng, dim, deg)
     f = (lambda P: f0(np.asarray(P) / unit)) if unit != 1.0 else f0      # the same field, written in the user's unit
+    if offset is not None:
+        f = lambda P: f0(np.asarray(P) - offset)  # noqa: E731  (the same field about the part's own corner)
     vals = f(X)
     dofs = vals.ravel()
     groups = mesh.Get_list_groupElem(dim)
@@ -668,6 +681,8 @@ def run_locate(case, ctx, rng):
         want = f(P)
         # general quads / hexas go through scipy.optimize.least_squares with its default 1e-8 tolerances
         tol = 1e-6 if tensor else 1e-9
+        if offset is not None:
+            tol = max(tol, 1e-7)  # positions given at 1e5 carry a round-off of 1e-11 of the part's size, amplified by the polynomial's gradient
         if cls in ("edge", "node") and len(groups) == 1 and mc != "warped-faces":
             # the optional list of candidate elements, given in no particular order
             with ctx.monitored("location-no-exception", ckey + "/elements-argument/raised"):
